@@ -158,6 +158,10 @@ def h_dual_stage(ctx, variety):
     nf2, _ = amp._nf(p.booster_type_def, p.booster_nf_model, p.booster_nf_fit_coeff, p.booster_gain_min,
                      p.booster_gain_flatmax, amp.effective_gain - g1)
     ctx.prove('dual_stage:friis', approx(L(nf), L(nf1) + L(nf2) / L(g1), 1e-9))
+    lib = equipment()['Edfa']
+    ctx.prove('dual_stage:maximum output power is that of the output (booster) stage',
+              p.p_max == lib[lib[variety].booster_type_variety].p_max,
+              info=dict(variety=variety, p_max=p.p_max, preamp=lib[lib[variety].preamp_type_variety].p_max, booster=lib[lib[variety].booster_type_variety].p_max))
 
 
 def jobs(tier):
